@@ -59,6 +59,17 @@ def run(ctx):
         r1.check(f in reads, f"{m.rel}:Task._calc_hash:reads {f}", f"Task._calc_hash no longer depends on `{f}`: changing it does not change the task hash", m.rel, ch.lineno)
     for f in NOT_HASHED:
         r1.check(f not in reads, f"{m.rel}:Task._calc_hash:ignores {f}", f"Task._calc_hash reads `{f}`: definition-time/exported options must not affect the hash", m.rel, ch.lineno)
+    # the hashed fields reach the pre-image whole: no keys-only iteration of the override mapping, no table lookups / slices on the way
+    from ..flow import lossy_uses
+
+    for f, is_map in (("_task_options_override", True), ("source", False), ("version", False), ("name", False), ("namespace", False)):
+        for line, what in lossy_uses(m, ch, f, mapping_valued=is_map):
+            r1.violation(
+                f"{m.rel}:Task._calc_hash:{f}:lossy",
+                f"`self.{f}` reaches the task hash through a value-losing step: {what}; two tasks that differ only in what is lost there (e.g. the *values* of call-time option overrides) get the same hash",
+                m.rel,
+                line,
+            )
     sorted_ok = any(isinstance(c, ast.Call) and call_name(c) == "sorted" and "self._hash_includes" in src(c) for c in calls_in(ch))
     r1.check(sorted_ok, f"{m.rel}:Task._calc_hash:sorted(hash_includes)", "hash_includes are not canonicalised with sorted(): their order would affect the hash", m.rel, ch.lineno)
     # per-return flow of fullname + the variable parts
